@@ -1,0 +1,12 @@
+//go:build !verif
+// +build !verif
+
+// Package verifpoint provides named pause points for verification harnesses.
+// Without the "verif" build tag every function here is an empty, inlinable no-op.
+package verifpoint
+
+// Hit marks a named point in the code; it does nothing unless built with -tags verif.
+func Hit(name string) {}
+
+// HitArg is like Hit but carries an argument identifying the object at the point.
+func HitArg(name string, arg interface{}) {}
